@@ -36,6 +36,9 @@ Check(t) ==
          ELSE IF t.bits3 # <<>> /\ (~t.shape3_ok \/ t.bits3 # t.bits) THEN <<"membership(product space x1*x2, permuted columns)", "", nj>>
          ELSE IF t.exc4 # "" THEN <<"contains-failed(shape 256 times larger):" \o t.exc4, "", nj>>
          ELSE IF t.bits4 # <<>> /\ (~t.shape4_ok \/ \E i \in J : (t.bits4[i] = 1) # In(E(t), Q(t.pts[i]))) THEN <<"membership(shape 256 times larger)", "", nj>>
+         ELSE IF "exc5" \in DOMAIN t /\ t.exc5 # "" THEN <<"contains-failed(same Points object, new content):" \o t.exc5, "", nj>>
+         ELSE IF "bits5" \in DOMAIN t /\ t.bits5 # <<>> /\ (~t.shape5_ok \/ \E i \in DOMAIN t.pts5 :
+                    ~NearBd(E(t), Q(t.pts5[i]), Eps) /\ (t.bits5[i] = 1) # In(E(t), Q(t.pts5[i]))) THEN <<"membership(same Points object, new content)", "", nj>>
          ELSE IF ~t.nv_ok THEN <<"necessary-variables", "", nj>>
          ELSE IF t.nv_parts /\ ({t.nv_l[i] : i \in DOMAIN t.nv_l} # FreeVars(E(t).l) \ SpaceVars(E(t).l)
                                 \/ {t.nv_r[i] : i \in DOMAIN t.nv_r} # FreeVars(E(t).r) \ SpaceVars(E(t).r))
